@@ -54,25 +54,7 @@ def run(ctx, chk):
     # and the rounding (a helper returning f32, an `as f32`, an f32 addition) rounds to nearest with a 24-bit mantissa: the
     # published bound can come out *below* the documented sum, by tens to hundreds of ns for delays of seconds. (The linear
     # form above does not see it: widening conversions are exact.)
-    n_float = 0
-    narrow = []
-    for ob in {x.path: x for x, _, _, _ in common.reachable_calls(fb, m.dispatch)}.values():
-        if ob.crate.name != common.DAEMON:
-            continue
-        for bi, blk in enumerate(ob.blocks):
-            if mir.in_tracing(blk['tspan']):
-                continue
-            for st_ in blk['stmts']:
-                if st_['k'] != 'assign' or 'ty' not in st_['p']:
-                    continue
-                ts_ = ob.tystr(st_['p']['ty'])
-                if ts_ in ('f32', 'f64') and st_['r'].get('k') in ('bin', 'un', 'cast', 'use'):
-                    n_float += 1
-                    if ts_ == 'f32' and (ob.path, bi) not in [(a, b) for a, b, _ in narrow]:
-                        narrow.append((ob.path, bi, ob.where(bi)))
-            t_ = blk['term']
-            if t_['k'] == 'call' and 'ty' in t_['dest'] and ob.tystr(t_['dest']['ty']) == 'f32' and (ob.path, bi) not in [(a, b) for a, b, _ in narrow]:
-                narrow.append((ob.path, bi, ob.where(bi)))
+    n_float, narrow = common.single_precision_sites(fb, m.dispatch, (common.DAEMON,))
     chk.analysed['call_sites'] += n_float
     chk.ob('C07.F6', 'bound:computed-in-double-precision', not narrow, narrow[0][2] if narrow else m.dispatch.where(0),
            'single-precision values on the way from the report to the bound: %s' % (
